@@ -54,6 +54,12 @@ func iterReaches(target ssa.Instruction, o exprOpts, subst map[ssa.Value]string,
 	tb := target.Block()
 	h, in := natLoop(tb)
 	if h == nil {
+		// an exit of the loop (a return or break target reached from the body): the loop of its predecessors
+		for b, k := tb, 0; h == nil && k < 6 && len(b.Preds) > 0; b, k = b.Preds[0], k+1 {
+			h, in = natLoop(b.Preds[0])
+		}
+	}
+	if h == nil {
 		return false, false
 	}
 	memo := map[ssa.Value]string{}
@@ -421,7 +427,7 @@ func byteOrderSort(call *ssa.Call) (field string, ok bool) {
 	if len(rs) != 1 {
 		return "", false
 	}
-	s := rs[0]
+	s := strings.NewReplacer("&cell(p0)", "p0", "&cell(p1)", "p1", "cell(p0)", "p0", "cell(p1)", "p1").Replace(rs[0])
 	switch name {
 	case "sort.Slice", "sort.SliceStable":
 		for _, l := range []string{"*fv0", "fv0"} {
